@@ -58,16 +58,30 @@ def r07_1(run):
         m = wri.methods.get(mname)
         if m is None:
             raise AnalysisError(f"WeakRefIterable.{mname} not found")
-        adds = [c for c in own_nodes(m.node) if isinstance(c, ast.Call) and (
-            (isinstance(c.func, ast.Attribute) and c.func.attr == "append" and norm(c.func.value) == "self.data")
-            or (dotted(c.func) == "list"))]
-        ok = bool(adds)
-        for c in adds:
-            arg = c.args[0] if c.args else None
-            if isinstance(arg, ast.GeneratorExp) or isinstance(arg, ast.ListComp):
-                arg = arg.elt
-            if not _is_weakref_call(arg):
-                ok = False
+        # every element that enters self.data: elements of a list built here (comprehension, list(<generator>), literal) and arguments of append
+        elems, seen_store = [], False
+        for n_ in own_nodes(m.node):
+            if isinstance(n_, ast.Call) and isinstance(n_.func, ast.Attribute) and n_.func.attr in ("append", "insert") and norm(n_.func.value) == "self.data":
+                seen_store = True
+                elems.append(n_.args[-1] if n_.args else None)
+            elif isinstance(n_, ast.Call) and isinstance(n_.func, ast.Attribute) and n_.func.attr == "extend" and norm(n_.func.value) == "self.data":
+                seen_store = True
+                a_ = n_.args[0] if n_.args else None
+                elems.append(a_.elt if isinstance(a_, (ast.GeneratorExp, ast.ListComp)) else None)
+            elif isinstance(n_, ast.Assign) and any(norm(t_) == "self.data" for t_ in n_.targets):
+                seen_store = True
+                v_ = n_.value
+                if isinstance(v_, ast.Call) and dotted(v_.func) in ("list", "tuple") and v_.args:
+                    v_ = v_.args[0]
+                if isinstance(v_, (ast.GeneratorExp, ast.ListComp)):
+                    elems.append(v_.elt)
+                elif isinstance(v_, (ast.List, ast.Tuple)):
+                    elems.extend(v_.elts)
+                elif isinstance(v_, ast.Call) and dotted(v_.func) in ("list", "tuple") and not v_.args:
+                    pass  # empty container
+                else:
+                    elems.append(None)
+        ok = seen_store and all(e_ is not None and _is_weakref_call(e_) for e_ in elems)
         run.ob("R07.1", loc(m, m.node), m.short, "items are wrapped in ReferenceType before being stored", ok,
                "every stored element is a weakref constructor call" if ok else "WeakRefIterable stores a strong reference")
     run.count("_ops.add sites", n_add)
